@@ -13,9 +13,9 @@ import (
 const (
 	WAL_MAGIC_16 = 0xD113 // PostgreSQL 16
 	WAL_MAGIC_15 = 0xD110 // PostgreSQL 15
-	WAL_MAGIC_14 = 0xD10F // PostgreSQL 14
-	WAL_MAGIC_13 = 0xD10D // PostgreSQL 13
-	WAL_MAGIC_12 = 0xD109 // PostgreSQL 12
+	WAL_MAGIC_14 = 0xD10D // PostgreSQL 14
+	WAL_MAGIC_13 = 0xD106 // PostgreSQL 13
+	WAL_MAGIC_12 = 0xD101 // PostgreSQL 12
 )
 
 // WAL page constants
